@@ -191,3 +191,25 @@ CHECKS["C01"]["subchecks"] = CHECKS["C01"]["subchecks"] + list(_p11["MAIN"]["C01
 CHECKS["C01"]["assumptions"] = CHECKS["C01"]["assumptions"] + list(_p11["MAIN"]["C01B"].get("assumptions", []))
 CHECKS["C01"]["rule"] += " BatchRelease level (c01-batchrelease-knob): " + _p11["MAIN"]["C01B"].get("rule", "")
 CHECKS["C01"]["engine"] = "E3+E2+E1"
+
+
+CHECKS["C19"] = {
+    "level": "exploration", "engine": "E1",
+    "technique": "stateful property-based testing (rapid) of several rollouts interleaved on one controller process (ownership + differential oracle) and a 4-worker concurrent run under the Go race detector",
+    "level_text": ("Isolation decided by generated search. (a) Deterministic interleaving: 2-3 generated rollouts (same and different namespaces, names that are prefixes of each other "
+                   "demo / demo-a, same name in two namespaces, hence identically named Services / Ingresses / routes across namespaces) are driven on ONE simulated cluster and ONE set of "
+                   "reconcilers by a generated interleaving of reconciles, environment steps and per-rollout user actions; oracles: every write issued while reconciling key K touches only "
+                   "objects of K's own rollout (resolved by exact names and owner references), no panic, every rollout reaches its terminal state, and for timing-insensitive histories the "
+                   "normalised final state of each rollout equals that of its solo run. (b) The same scenarios with reconciles executed by 4 worker goroutines (API calls serialised by a lock, "
+                   "as an API server serialises writes) in a binary built with -race, plus a 16-goroutine hammer on grace timers, creation expectations and the Lua runtime: any race report, panic "
+                   "or non-termination is a violation. Go-scheduler interleavings are explored only by chance; a race is reproducible only statistically."),
+    "level_note": E1_TRUST + " In (b) environment and user steps run in serial phases between the parallel reconcile phases so that the harness itself has no shared unsynchronised state.",
+    "rule": ("rapid: 2-4 scenarios from the shared E1 generator placed on {ns1/demo, ns1/demo-a, ns2/demo, ns2/demo-a}; histories of up to 200 actions with a drawn target rollout per user action; half of the "
+             "cases contain only release + approvals (these get the solo differential). Non-trivial: more than 10 generated actions beyond the releases (a) / >= 2 rollouts (b). Distinct by scenarios + user action sequence."),
+    "assumptions": E1_ASSUMPTIONS + ["Grace periods are 0 in this time mode, so cross-talk through grace-timer keys is only reachable in the -race hammer, not as a functional difference."],
+    "subchecks": [
+        {"name": "c19-interleaved", "pkg": "p19", "test": "TestC19Interleaved", "quick": rp(192, 16, timeout=900, shrinktime="30s"), "thorough": rp(4800, 16, timeout=3000, shrinktime="300s")},
+        {"name": "c19-concurrent-race", "pkg": "p19", "test": "TestC19ConcurrentRace", "race": True, "quick": rp(32, 16, timeout=900, shrinktime="30s"), "thorough": rp(640, 16, timeout=3000, shrinktime="120s")},
+        {"name": "c19-helper-hammer", "pkg": "p19", "test": "TestC19HelperHammer", "race": True, "mode": "plain", "quick": rp(1, 4, timeout=300), "thorough": rp(1, 16, timeout=300)},
+    ],
+}
